@@ -76,6 +76,16 @@ func c09Quantize(x Operand, e int32, cc CtxCase) (cls string, trivial bool, msg 
 	if f&(ref.Overflow|ref.Underflow|ref.InvalidOperation) != 0 {
 		return cls, trivial, "Quantize raised " + ref.FlagNames(f)
 	}
+	if inexact {
+		// the same call with the destination being the operand (money code quantizes in place)
+		xa := x.J.Build()
+		c2 := cc.C
+		res2, err2, pan2 := callOp("Quantize", &c2, xa, xa, nil, e)
+		g2 := ToVal(xa)
+		if pan2 != "" || err2 != nil || res2 != res || g2.Form != got.Form || g2.Neg != got.Neg || g2.Exp != got.Exp || g2.Coef.Cmp(got.Coef) != 0 {
+			return cls, trivial, fmt.Sprintf("in place (d == x): %s [%s] err=%v panic=%q; with a distinct destination: %s [%s]", g2, ref.FlagNames(int(res2)), err2, pan2, got, ref.FlagNames(f))
+		}
+	}
 	return cls, trivial, ""
 }
 
